@@ -383,6 +383,30 @@ func (w *govWorld) pickEon() uint64 {
 	return simkit.Pick(c, w.eons, "eon")
 }
 
+// churnBlock returns one failure report for the newest eon from every keyper of its
+// configuration: the key generation is restarted, the eon superseded (nil if there is no eon).
+func (w *govWorld) churnBlock() []*txInfo {
+	if len(w.eons) == 0 {
+		return nil
+	}
+	eon := w.eons[len(w.eons)-1]
+	pos, ok := w.eonCfg[eon]
+	if !ok {
+		return nil
+	}
+	var out []*txInfo
+	for _, a := range w.configs[pos].Keypers {
+		for _, kk := range w.keys {
+			if kk.Addr == a {
+				ti := w.mk(kk, shmsg.NewDKGResult(eon, false), "dkgresult", fmt.Sprintf("eon=%d success=false (churn)", eon))
+				ti.Eon, ti.Success = eon, false
+				out = append(out, ti)
+			}
+		}
+	}
+	return out
+}
+
 func (w *govWorld) eonMember(eon uint64, label string) *simtm.Key {
 	if pos, ok := w.eonCfg[eon]; ok && w.r.C.Chance(850, label+"-member") {
 		a := simkit.Pick(w.r.C, w.configs[pos].Keypers, label)
